@@ -7,6 +7,8 @@
   * `numgrad_restores`                the working array is back to `x` at the end
   * `jacobian_is_central_diff`        orientation of `numeric_jacobian`
   * `multi_grad_separates`            `multi_grad_of_fn` (numeric): one parameter at a time
+  * `D_is_linear_coefficient`         for polynomial expressions `D` is the coefficient of `t` in
+                                      `eval e (p + t·e_v)`: the derivative, algebraically
   * `central_diff_exact_quadratic`    no truncation error up to degree 2 (any field, 2·eps ≠ 0)
   The truncation bound for C³ functions is in `Props/C06Taylor.lean`.
 
@@ -140,6 +142,163 @@ theorem gradient_is_symbolic (F : FnEnv α) (p : List α) (e : Expr α) :
 
 end Dual
 
+/-! ## `D` is the coefficient of the linear term (polynomial expressions) -/
+
+section Poly
+variable {α : Type}
+
+mutual
+/-- polynomial expressions: no division, no named functions -/
+def isPoly : Expr α → Bool
+  | .const _ => true
+  | .var _ => true
+  | .add a b => isPoly a && isPoly b
+  | .sub a b => isPoly a && isPoly b
+  | .mul a b => isPoly a && isPoly b
+  | .div _ _ => false
+  | .neg a => isPoly a
+  | .pow a _ => isPoly a
+  | .sum es => allPoly es
+  | .prod es => allPoly es
+  | .idx es _ => allPoly es
+  | .fn _ _ _ => false
+def allPoly : List (Expr α) → Bool
+  | [] => true
+  | e :: es => isPoly e && allPoly es
+end
+
+variable [CommRing α] [Div α]
+
+/-- `X' = X + t·X₁ + t²·r` for some `r`: `X₁` is the coefficient of `t` -/
+def Expands (t X' X X1 : α) : Prop := ∃ r, X' = X + t * X1 + t * t * r
+
+omit [Div α] in
+theorem Expands.add {t A' A A1 B' B B1 : α} (ha : Expands t A' A A1) (hb : Expands t B' B B1) :
+    Expands t (A' + B') (A + B) (A1 + B1) := by
+  obtain ⟨r, rfl⟩ := ha; obtain ⟨s, rfl⟩ := hb; exact ⟨r + s, by ring⟩
+
+omit [Div α] in
+theorem Expands.sub {t A' A A1 B' B B1 : α} (ha : Expands t A' A A1) (hb : Expands t B' B B1) :
+    Expands t (A' - B') (A - B) (A1 - B1) := by
+  obtain ⟨r, rfl⟩ := ha; obtain ⟨s, rfl⟩ := hb; exact ⟨r - s, by ring⟩
+
+omit [Div α] in
+theorem Expands.neg {t A' A A1 : α} (ha : Expands t A' A A1) : Expands t (-A') (-A) (-A1) := by
+  obtain ⟨r, rfl⟩ := ha; exact ⟨-r, by ring⟩
+
+omit [Div α] in
+theorem Expands.mul {t A' A A1 B' B B1 : α} (ha : Expands t A' A A1) (hb : Expands t B' B B1) :
+    Expands t (A' * B') (A * B) (A1 * B + A * B1) := by
+  obtain ⟨r, rfl⟩ := ha; obtain ⟨s, rfl⟩ := hb
+  exact ⟨A * s + A1 * B1 + r * B + t * (A1 * s + r * B1) + t * t * (r * s), by ring⟩
+
+omit [Div α] in
+theorem Expands.const (t c : α) : Expands t c c 0 := ⟨0, by ring⟩
+
+omit [Div α] in
+theorem Expands.pow {t A' A A1 : α} (ha : Expands t A' A A1) (n : Nat) :
+    Expands t (A' ^ (n + 1)) (A ^ (n + 1)) (((n + 1 : Nat) : α) * A ^ n * A1) := by
+  induction n with
+  | zero => simpa using ha
+  | succ n ih =>
+    have h := ih.mul ha
+    rw [← pow_succ, ← pow_succ] at h
+    obtain ⟨r, hr⟩ := h
+    exact ⟨r, by rw [hr]; push_cast; ring⟩
+
+
+/-- the point with component `v` moved by `t` -/
+def shift (p : List α) (v : Nat) (t : α) : List α := p.set v (p.getD v ((0 : Nat) : α) + t)
+
+def PolyE (F : FnEnv α) (p : List α) (v : Nat) (t : α) (e : Expr α) : Prop :=
+  isPoly e = true → Expands t (eval F (shift p v t) e) (eval F p e) (eval F p (D v e))
+
+def PolyL (F : FnEnv α) (p : List α) (v : Nat) (t : α) (es : List (Expr α)) : Prop :=
+  allPoly es = true →
+    Expands t (evalSum F (shift p v t) es) (evalSum F p es) (evalSum F p (DList v es))
+    ∧ Expands t (evalProd F (shift p v t) es) (evalProd F p es) (eval F p (DProd v es))
+    ∧ ∀ i, Expands t (evalIdx F (shift p v t) es i) (evalIdx F p es i) (evalIdx F p (DList v es) i)
+
+omit [Div α] in
+theorem shift_getD_self (p : List α) (v : Nat) (t : α) (hv : v < p.length) :
+    (shift p v t).getD v ((0 : Nat) : α) = p.getD v ((0 : Nat) : α) + t := by
+  simp [shift, List.getD_eq_getElem?_getD, hv]
+
+omit [Div α] in
+theorem shift_getD_ne (p : List α) (v i : Nat) (t : α) (h : i ≠ v) :
+    (shift p v t).getD i ((0 : Nat) : α) = p.getD i ((0 : Nat) : α) := by
+  simp [shift, List.getD_eq_getElem?_getD, List.getElem?_set_ne (Ne.symm h)]
+
+/-- **`D` is the derivative, algebraically**: for every polynomial expression (no division, no
+    named function) over any commutative ring, moving component `v` of the point by `t` changes
+    the value by `t · eval (D v e)` up to a multiple of `t²`:
+        `eval e (p + t·e_v) = eval e p + t · eval (D v e) p + t² · r`.
+    So the symbolic derivative — and by `dual_correct` the dual-number oracle — is the
+    coefficient of the linear term, which is what "the derivative" means without limits. -/
+theorem D_is_linear_coefficient (F : FnEnv α) (p : List α) (v : Nat) (hv : v < p.length) (t : α)
+    (e : Expr α) (he : isPoly e = true) :
+    ∃ r, eval F (shift p v t) e = eval F p e + t * eval F p (D v e) + t * t * r := by
+  suffices h : PolyE F p v t e from h he
+  refine @Expr.rec α (PolyE F p v t) (PolyL F p v t) ?_ ?_ ?_ ?_ ?_ ?_ ?_ ?_ ?_ ?_ ?_ ?_ ?_ ?_ e
+  · intro c _
+    simpa [eval, D] using Expands.const t c
+  · intro i _
+    by_cases h : i = v
+    · subst h
+      simp only [eval, D, if_true, shift_getD_self p i t hv]
+      exact ⟨0, by push_cast; ring⟩
+    · simp only [eval, D, if_neg h, shift_getD_ne p v i t h]
+      exact ⟨0, by push_cast; ring⟩
+  · intro a b ha hb hp
+    simp only [isPoly, Bool.and_eq_true] at hp
+    simpa [eval, D] using (ha hp.1).add (hb hp.2)
+  · intro a b ha hb hp
+    simp only [isPoly, Bool.and_eq_true] at hp
+    simpa [eval, D] using (ha hp.1).sub (hb hp.2)
+  · intro a b ha hb hp
+    simp only [isPoly, Bool.and_eq_true] at hp
+    simpa [eval, D] using (ha hp.1).mul (hb hp.2)
+  · intro a b _ _ hp
+    simp [isPoly] at hp
+  · intro a ha hp
+    simp only [isPoly] at hp
+    simpa [eval, D] using (ha hp).neg
+  · intro a n ha hp
+    simp only [isPoly] at hp
+    cases n with
+    | zero => simpa [eval, D, npow] using Expands.const t (1 : α)
+    | succ n => simpa [eval, D, npow_eq_pow] using (ha hp).pow n
+  · intro es h hp
+    simp only [isPoly] at hp
+    simpa [eval, D] using (h hp).1
+  · intro es h hp
+    simp only [isPoly] at hp
+    simpa [eval, D] using (h hp).2.1
+  · intro es i h hp
+    simp only [isPoly] at hp
+    simpa [eval, D] using (h hp).2.2 i
+  · intro k ord a _ hp
+    simp [isPoly] at hp
+  · intro _
+    refine ⟨?_, ?_, ?_⟩
+    · simpa [evalSum, DList] using Expands.const t (0 : α)
+    · simpa [evalProd, DProd, eval] using Expands.const t (1 : α)
+    · intro i
+      simpa [evalIdx, DList] using Expands.const t (0 : α)
+  · intro e es he hes hp
+    simp only [allPoly, Bool.and_eq_true] at hp
+    obtain ⟨hs, hpr, hi⟩ := hes hp.2
+    have h1 := he hp.1
+    refine ⟨?_, ?_, ?_⟩
+    · simpa [evalSum, DList] using h1.add hs
+    · simpa [evalProd, DProd, eval] using h1.mul hpr
+    · intro i
+      cases i with
+      | zero => simpa [evalIdx, DList] using h1
+      | succ i => simpa [evalIdx, DList] using hi i
+
+end Poly
+
 /-! ## truncation: none up to degree two -/
 
 section Quadratic
@@ -183,6 +342,11 @@ example : eval (fun _ _ x => x) [3, 5] (D 0 (.mul (.pow (.var 0) 2) (.var 1) : E
 example : gradient (fun _ _ x => x) [2, 3, 5]
     (.add (.prod [.var 0, .var 1, .var 2]) (.sum [.var 0, .idx [.var 1, .var 2] 1]) : Expr Int)
     = [16, 10, 7] := by decide
+
+/-- moving x₀ by t in x₀²·x₁ at (3, 5): 45 + 30 t + 5 t² -/
+example (t : Int) : ∃ r, eval (fun _ _ x => x) (shift [3, 5] 0 t) (.mul (.pow (.var 0) 2) (.var 1) : Expr Int)
+    = 45 + t * 30 + t * t * r :=
+  D_is_linear_coefficient (fun _ _ x => x) [3, 5] 0 (by decide) t _ (by decide)
 
 /-- numeric_grad of x₀·x₁ over Int with eps = 1: probes and result (Int division by 2 exact here) -/
 example : numGrad (fun y : List Int => y.getD 0 0 * y.getD 1 0) 1 [3, 5] = [5, 3] := by decide
